@@ -507,6 +507,17 @@ Definition read_row (q : quirks) (elems : list jv) (row : trow) : option rspan :
     match t_payload row with POtlp s => Some (parse_otlp q s) | _ => None end
   else None.
 
+(* OutputQuery's loop over the rows of ONE query: a row of an unknown payload type is passed over (continue); the first row that does
+   not decode ends the output (return; a decoding panic is recovered and ends it likewise) *)
+Fixpoint output_query (q : quirks) (elems : list jv) (rows : list trow) : list rspan :=
+  match rows with
+  | [] => []
+  | r :: rest =>
+      if (t_ptype r =? 1) || (t_ptype r =? 2) then
+        match read_row q elems r with Some s => s :: output_query q elems rest | None => [] end
+      else output_query q elems rest
+  end.
+
 (* ==================================================================================================
    Specification: what the property demands, stated independently of the decoders above wherever
    the demand is not itself "the value denoted by this text".
@@ -812,3 +823,25 @@ Definition tag_run (tid sid : string) (ts dur date : Z) (kv : list (string * str
 
 (* case files write a long run of one character as rep_char c n *)
 Definition rep_char (c : ascii) (n : N) : string := N.iter n (String c) EmptyString.   (* no deep recursion, no unary numeral *)
+
+(* ------------------------------------------------------------------ OutputQuery's loop against the implementation: the stored rows of a case with
+   row k made undecodable (payload that is no span) or given an unknown payload type; observed = the span ids returned by one call *)
+Record qcase := { qc_case : case; qc_k : nat; qc_bad : list string; qc_type3 : list string }.
+Fixpoint update_nth {A} (k : nat) (f : A -> A) (l : list A) : list A :=
+  match l, k with
+  | [], _ => []
+  | x :: r, O => f x :: r
+  | x :: r, S k' => x :: update_nth k' f r
+  end.
+Definition with_payload (r : trow) (p : payload) : trow :=
+  {| t_trace := t_trace r; t_span := t_span r; t_parent := t_parent r; t_name := t_name r; t_ts := t_ts r; t_dur := t_dur r;
+     t_service := t_service r; t_ptype := t_ptype r; t_payload := p |}.
+Definition with_ptype (r : trow) (t : Z) : trow :=
+  {| t_trace := t_trace r; t_span := t_span r; t_parent := t_parent r; t_name := t_name r; t_ts := t_ts r; t_dur := t_dur r;
+     t_service := t_service r; t_ptype := t; t_payload := t_payload r |}.
+Definition query_matches (c : qcase) : bool :=
+  let rows := c_rows (qc_case c) in
+  let es := in_elems (c_in (qc_case c)) in
+  list_eqb String.eqb (map rs_span (output_query fixed es (update_nth (qc_k c) (fun r => with_payload r POther) rows))) (qc_bad c)
+  && list_eqb String.eqb (map rs_span (output_query fixed es (update_nth (qc_k c) (fun r => with_ptype r 3) rows))) (qc_type3 c).
+Definition query_mismatches (cs : list qcase) : list Z := map (fun c => c_id (qc_case c)) (filter (fun c => negb (query_matches c)) cs).
